@@ -24,7 +24,10 @@ import (
 //   ack    : the same with a response acknowledged while stalled (its ACK waits in the channel)
 //   flood  : the same with a stream failure + reconnect (new stream published, not yet adopted) before the lookups
 //   outage : the stream fails and cannot be re-created; n lookups miss meanwhile
-func flowCase(c *ctx, kind string, n int) {
+func flowCase(c *ctx, kind string, n int) { flowCaseHold(c, kind, n, 0) }
+
+// flowCaseHold: as flowCase; the transport stays stalled for `hold` after the lookups got stuck (or finished).
+func flowCaseHold(c *ctx, kind string, n int, hold time.Duration) {
 	w, err := newWorld(worldOpts{ndsNotRequired: true, fetchTimeout: time.Millisecond})
 	if err != nil {
 		fmt.Println("flow: world:", err)
@@ -78,16 +81,28 @@ func flowCase(c *ctx, kind string, n int) {
 		}, 10*time.Second)
 	}
 	done := make(chan struct{})
-	var returned int64
+	var returned, slowest, slowestIdx int64
 	go func() {
 		for i := 0; i < n; i++ {
+			t0 := time.Now()
 			_ = w.get(rtOf("cds"), fmt.Sprintf("f%04d", i))
+			if ms := time.Since(t0).Milliseconds(); ms > atomic.LoadInt64(&slowest) {
+				atomic.StoreInt64(&slowest, ms)
+				atomic.StoreInt64(&slowestIdx, int64(i+1))
+			}
 			atomic.AddInt64(&returned, 1)
 		}
 		close(done)
 	}()
 	waitStuckOrDone(done, &returned)
 	r1 := atomic.LoadInt64(&returned)
+	if hold > 0 {
+		// the transport stays stalled for a while longer: what happens to the lookup that found the channel full?
+		select {
+		case <-done:
+		case <-time.After(hold):
+		}
+	}
 	w.ads.mu.Lock()
 	for _, s := range w.ads.streams {
 		s.sendGate = nil
@@ -127,8 +142,9 @@ func flowCase(c *ctx, kind string, n int) {
 	if hung {
 		c.count("flow.hang", 1)
 	}
-	c.emit(obj{"op": "flow", "kind": kind, "n": n, "obs": obj{"returnedWhileStalled": r1, "returned": r2, "hang": hung,
-		"senderInAdopt": senderInAdopt, "producerInSend": producerInSend, "wire": wire}})
+	c.emit(obj{"op": "flow", "kind": kind, "n": n, "holdMs": hold.Milliseconds(), "fetchTimeoutMs": 1, "obs": obj{"returnedWhileStalled": r1, "returned": r2, "hang": hung,
+		"senderInAdopt": senderInAdopt, "producerInSend": producerInSend, "wire": wire,
+		"slowestMs": atomic.LoadInt64(&slowest), "slowestLookup": atomic.LoadInt64(&slowestIdx)}})
 }
 
 // ---- yield point 7: a producer (Watch, updateAndACK) parked right before it hands its request to the channel ----
